@@ -38,6 +38,9 @@ pub struct Case {
     /// operator spelling: false = "|" "^", true = UNION INTERSECTION
     #[serde(default)]
     pub words: bool,
+    /// sized types: every operand carries its own SIZE — `(SIZE (1..3) | SIZE (7))` instead of `(SIZE (1..3 | 7))`
+    #[serde(default)]
+    pub size_each: bool,
 }
 
 // ---------------------------------------------------------------- reference semantics
@@ -299,6 +302,9 @@ fn expr_text(e: &Expr, ctx: &str, words: bool) -> String {
     expr_text_open(e, ctx, words, "")
 }
 fn expr_text_open(e: &Expr, ctx: &str, words: bool, open: &str) -> String {
+    expr_text_wrapped(e, ctx, words, open, false)
+}
+fn expr_text_wrapped(e: &Expr, ctx: &str, words: bool, open: &str, size_each: bool) -> String {
     let opnd = |o: &Opnd| match o {
         Opnd::V(v) => end_text(Some(*v), true, ctx),
         // the same set of integers written with excluded endpoints
@@ -323,7 +329,7 @@ fn expr_text_open(e: &Expr, ctx: &str, words: bool, open: &str) -> String {
                 _ => " EXCEPT ",
             };
         }
-        s += &opnd(o);
+        s += &if size_each { format!("SIZE ({})", opnd(o)) } else { opnd(o) };
     }
     s
 }
@@ -351,7 +357,10 @@ pub fn text(c: &Case) -> String {
     let sz = sized(&c.ty);
     let one = |e: &Expr| -> String {
         let inner = expr_text_open(e, &c.ctx, c.words, &c.open);
-        if sz {
+        if sz && c.size_each {
+            let inner = expr_text_wrapped(e, &c.ctx, c.words, &c.open, true);
+            if e.ext { format!("({inner}, ...)") } else { format!("({inner})") }
+        } else if sz {
             if e.ext && c.ext_inner {
                 format!("(SIZE ({inner}, ...))")
             } else if e.ext {
@@ -581,7 +590,7 @@ impl Prop for C04 {
         let ops = all_operands();
         let opsz: Vec<Opnd> = ops.iter().filter(|o| nonneg(o)).cloned().collect();
         let mut out = vec![];
-        let mk = |cons: Vec<Expr>, ty: &str, ctx: &str, ext_inner: bool, words: bool| Case { cons, ty: ty.into(), ctx: ctx.into(), ext_inner, words, open: String::new() };
+        let mk = |cons: Vec<Expr>, ty: &str, ctx: &str, ext_inner: bool, words: bool| Case { cons, ty: ty.into(), ctx: ctx.into(), ext_inner, words, open: String::new(), size_each: false };
         let exprs = |pool: &[Opnd], n: usize| -> Vec<Expr> {
             let mut v = vec![];
             match n {
@@ -720,6 +729,18 @@ impl Prop for C04 {
                 }
             }
         }
+        // one SIZE per operand
+        for ty in sized_types {
+            for e in z2.iter().chain(zae.iter()) {
+                for ctx in ["assign", "component"] {
+                    for x in [false, true] {
+                        let mut c = mk(vec![with_ext(e, x)], ty, ctx, false, false);
+                        c.size_each = true;
+                        out.push(c);
+                    }
+                }
+            }
+        }
         for e in z1.iter().chain(z2.iter()) {
             out.push(mk(vec![e.clone()], "OCTETSTRING", "reference-component", false, false));
             out.push(mk(vec![e.clone()], "SEQOF", "reference-component", false, false));
@@ -816,7 +837,7 @@ impl Prop for C04 {
         let src = text(c);
         let o = compile1(&src);
         let sh = shape(c);
-        let kbase = format!("range|ctx={}{}|type={}|shape={sh}", c.ctx, if c.open.is_empty() { String::new() } else { format!("+open-{}", c.open) }, c.ty);
+        let kbase = format!("range|ctx={}{}{}|type={}|shape={sh}", c.ctx, if c.size_each { "+size-each" } else { "" }, if c.open.is_empty() { String::new() } else { format!("+open-{}", c.open) }, c.ty);
         let ops_used: String = c.cons.iter().map(|e| e.ops.iter().collect::<String>()).collect::<Vec<_>>().join(";");
         let prec_key = format!("range|precedence|ops={ops_used}");
         let prec_possible = eff_right != Ok(eff) || eff_right_strict != Ok(eff);
